@@ -136,6 +136,9 @@ def verdict(prop, tier, seed, level, coverage, violations, assumptions, t0, repl
     fresh, hits = {}, {}
     for v in violations:
         s = sig_of(v)
+        w = f"{v.get('prop')}/{v.get('rule')}/*"   # a finding may be listed for every construct (`at`: "*")
+        if s not in ksigs and w in ksigs:
+            s = w
         if s in ksigs:
             hits.setdefault(s, []).append(v)
         else:
